@@ -1,7 +1,7 @@
 (* Props_C11.v — property C11 (fixed IPs survive recreation; the leak collector only reaps what is provably ours
    and stale). *)
 From Coq Require Import ZArith List Bool.
-From TV Require Import PeModel PeProofs.
+From TV Require Import PeModel PeProofs PeProofs2.
 Import ListNotations.
 Local Open Scope Z_scope.
 
@@ -35,6 +35,16 @@ Print Assumptions c11_collector_keeps_live.
 Theorem c11_allocations_stable : forall s e r r', s_rec s = Some r -> s_rec (step s e) = Some r' -> r_allocs r' = r_allocs r.
 Proof. exact step_keeps_allocs. Qed.
 Print Assumptions c11_allocations_stable.
+
+(* a pod recreated under the same name (new uid, same node) gets its unbound fixed-IP record back: uid taken over,
+   binding requested, attached - Bind under the new uid with the interfaces and addresses it had *)
+Theorem c11_fixed_record_rebound : forall r p used,
+  r_phase r = 3 -> r_del r = false -> have_fixed (r_allocs r) = true ->
+  q_exited p = false -> q_kind p <> 5 -> r_node r = q_node p -> r_uid r <> q_uid p ->
+  exists r', s_rec (fold_left step [EvPodCtl []; EvPodCtl []; EvEniCtl true true] (mkSt (Some p) (Some r) used)) = Some r' /\
+             r_phase r' = 1 /\ r_uid r' = q_uid p /\ r_allocs r' = r_allocs r.
+Proof. exact fixed_record_rebound. Qed.
+Print Assumptions c11_fixed_record_rebound.
 
 (* the leaked-interface collector's victims: both tags of this cluster, at least ten minutes old, named by no record *)
 Theorem c11_leak_victims : forall tags age ref,
